@@ -34,13 +34,29 @@ pub fn worker_handle(line: &str) -> String {
     let mut warns: Vec<char> = Vec::new();
     let mut reporter = |k: MarkerWarningKind, _m: String| warns.push(warn_code(k));
     match mode {
-        "m" => match MarkerTree::parse_reporter(&text, &mut reporter) {
-            Ok(t) => {
-                let w: String = if warns.is_empty() { "-".into() } else { warns.iter().collect() };
-                format!("ok {} w={}", dump(&t), w)
+        "m" => {
+            let primary = MarkerTree::parse_reporter(&text, &mut reporter);
+            // the other entry points for the same text: FromStr, parse_str, serde
+            let same = |other: Result<MarkerTree, (usize, usize)>| match (&primary, other) {
+                (Ok(a), Ok(b)) => *a == b,
+                (Err(a), Err((s, l))) => a.start == s && a.len == l,
+                _ => false,
+            };
+            let span = |e: pep508_rs::Pep508Error<pep508_rs::VerbatimUrl>| (e.start, e.len);
+            let differ = if !same(MarkerTree::from_str(&text).map_err(span)) { " ENTRYPOINTS-DIFFER:from_str" }
+                else if !same(MarkerTree::parse_str::<pep508_rs::VerbatimUrl>(&text).map_err(span)) { " ENTRYPOINTS-DIFFER:parse_str" }
+                else {
+                    let de: Result<MarkerTree, _> = serde_json::from_str(&serde_json::to_string(&text).unwrap());
+                    if de.is_ok() != primary.is_ok() || de.ok().zip(primary.as_ref().ok()).is_some_and(|(a, b)| a != *b) { " ENTRYPOINTS-DIFFER:deserialize" } else { "" }
+                };
+            match primary {
+                Ok(t) => {
+                    let w: String = if warns.is_empty() { "-".into() } else { warns.iter().collect() };
+                    format!("ok {} w={}{differ}", dump(&t), w)
+                }
+                Err(e) => format!("{}{differ}", err_line(&e, &text)),
             }
-            Err(e) => err_line(&e, &text),
-        },
+        }
         _ => match MarkerExpression::parse_reporter(&text, &mut reporter) {
             Ok(x) => {
                 let w: String = if warns.is_empty() { "-".into() } else { warns.iter().collect() };
@@ -156,6 +172,14 @@ pub struct Parsed {
 pub fn parse_case(out: &mut Out, w: &mut Worker, prop: &str, mode: &str, text: &str) -> Parsed {
     out.evaluations += 1;
     let ans = w.call(&format!("{mode} {}", hex(text)));
+    // FromStr / parse_str / Deserialize must agree with parse_reporter (C01: every entry point, C05: deserialization)
+    let ans = match ans.split_once(" ENTRYPOINTS-DIFFER:") {
+        Some((a, which)) => {
+            out.oracle_fail(if prop == "C05" { "C05" } else { "C01" }, &format!("MarkerTree::{which} and MarkerTree::parse_reporter disagree on the same text"), serde_json::json!({"text": text, "text_hex": hex(text), "entry": which}));
+            a.to_string()
+        }
+        None => ans,
+    };
     let (alpha, table) = ext_table(text);
     let cmd = if mode == "m" { "mparse" } else { "eparse" };
     let model_view = corr_part(&ans);
@@ -534,6 +558,64 @@ pub fn run(out: &mut Out, tier: &str, seed: u64, prop: &str) {
                     }
                 }
             }
+        }
+    }
+    if prop == "C01" {
+        // the environment API: an environment assembled field by field with the `with_*` setters (in any order, from
+        // any other environment) is the environment the builder makes; every accessor and `get_string` / `get_version`
+        // answer the field of that name; setting a field on a clone leaves the original alone; serde round trip
+        use pep508_rs::{MarkerValueString as MS, MarkerValueVersion as MV, StringVersion};
+        let probes: Vec<Term> = (0..24).map(|_| gen_parse_term(&mut rng, &p, 2)).collect();
+        for round in 0..(if big { 200 } else { 40 }) {
+            let envs = region_envs(&mut rng, &probes.iter().collect::<Vec<_>>(), 2);
+            if envs.len() < 2 { continue; }
+            let (c1, c2) = (&envs[0], &envs[1]);
+            let (e1, want) = (c1.env(), c2.env());
+            let before = e1.clone();
+            let sv = |t: &str| StringVersion::from_str(t).unwrap();
+            let mut order: Vec<usize> = (0..11).collect();
+            for i in (1..order.len()).rev() { let j = rng.below(i + 1); order.swap(i, j); }
+            let mut got = e1.clone();
+            for f in &order {
+                got = match f {
+                    0 => got.with_implementation_name(c2.strs[0].clone()),
+                    1 => got.with_implementation_version(sv(&c2.vers[0])),
+                    2 => got.with_os_name(c2.strs[1].clone()),
+                    3 => got.with_platform_machine(c2.strs[2].clone()),
+                    4 => got.with_platform_python_implementation(c2.strs[3].clone()),
+                    5 => got.with_platform_release(c2.strs[4].clone()),
+                    6 => got.with_platform_system(c2.strs[5].clone()),
+                    7 => got.with_platform_version(c2.strs[6].clone()),
+                    8 => got.with_python_full_version(sv(&c2.vers[1])),
+                    9 => got.with_python_version(sv(&c2.vers[2])),
+                    _ => got.with_sys_platform(c2.strs[7].clone()),
+                };
+            }
+            out.evaluations += 1;
+            let input = serde_json::json!({"from": c1.line(), "to": c2.line(), "order": order, "round": round});
+            if got != want { out.oracle_fail("C01", "an environment assembled with the with_* setters differs from the one the builder makes from the same values", input.clone()); }
+            if e1 != before { out.oracle_fail("C01", "setting fields on a clone of an environment changed the original", input.clone()); }
+            let acc = [got.implementation_name(), got.os_name(), got.platform_machine(), got.platform_python_implementation(), got.platform_release(), got.platform_system(), got.platform_version(), got.sys_platform()];
+            if acc.iter().zip(c2.strs.iter()).any(|(a, b)| *a != b.as_str()) { out.oracle_fail("C01", "an accessor of the environment does not return the field of its name", input.clone()); }
+            let by_key = [(MS::ImplementationName, 0usize), (MS::OsName, 1), (MS::OsNameDeprecated, 1), (MS::PlatformMachine, 2), (MS::PlatformMachineDeprecated, 2), (MS::PlatformPythonImplementation, 3),
+                (MS::PlatformPythonImplementationDeprecated, 3), (MS::PythonImplementationDeprecated, 3), (MS::PlatformRelease, 4), (MS::PlatformSystem, 5), (MS::PlatformVersion, 6), (MS::PlatformVersionDeprecated, 6),
+                (MS::SysPlatform, 7), (MS::SysPlatformDeprecated, 7)];
+            for (k, i) in by_key { if got.get_string(&k) != c2.strs[i] { out.oracle_fail("C01", &format!("get_string({k}) does not return the field of that name"), input.clone()); } }
+            for (k, i) in [(MV::ImplementationVersion, 0usize), (MV::PythonFullVersion, 1), (MV::PythonVersion, 2)] {
+                if *got.get_version(&k) != pep440_rs::Version::from_str(&c2.vers[i]).unwrap() { out.oracle_fail("C01", &format!("get_version({k}) does not return the field of that name"), input.clone()); }
+            }
+            if got.implementation_version().to_string() != c2.vers[0] || got.python_full_version().to_string() != c2.vers[1] || got.python_version().to_string() != c2.vers[2] {
+                out.oracle_fail("C01", "a version accessor of the environment does not return the text it was given", input.clone());
+            }
+            match serde_json::to_string(&got).ok().and_then(|j| serde_json::from_str::<pep508_rs::MarkerEnvironment>(&j).ok()) {
+                Some(back) => if back != got { out.oracle_fail("C01", "an environment does not survive its serde round trip", input.clone()); },
+                None => out.oracle_fail("C01", "an environment cannot be serialized and read back", input.clone()),
+            }
+            for t in &probes {
+                let m = t.build();
+                if got.clone().eq(&want) && m.evaluate(&got, &c2.extras()) != m.evaluate(&want, &c2.extras()) { out.oracle_fail("C01", "equal environments evaluate differently", input.clone()); }
+            }
+            out.stat("c01.environment_api");
         }
     }
     for t in terms {
